@@ -176,6 +176,7 @@ def run(ck):
     base = jgen.expr_cases(ck.seed * 31 + 8, 130 if quick else 900, depth=3)
     base += jgen.expr_cases(ck.seed * 31 + 9, 170 if quick else 1300, start_id=len(base) + 1, depth=3, rich=True)
     base += jgen.expr_cases(ck.seed * 31 + 10, 120 if quick else 900, start_id=len(base) + 1, depth=3, numeric=True)
+    base += jgen.expr_cases(ck.seed * 31 + 11, 40 if quick else 300, start_id=len(base) + 1, depth=2, collide=True)
     base += jgen.random_cases(ck.seed * 31 + 88, 120 if quick else 1000, start_id=len(base) + 1, features=("loopcontrols", "safe"))
     for c in base:
         c.pop("emit_values", None)
